@@ -11,7 +11,7 @@ from liquer.commands import (CommandRegistry, command_metadata_from_callable, en
                              disable_remote_registration, is_remote_registration_enabled, reset_command_registry,
                              command_registry)
 
-from engine.api import check, part, nt, conc, quiet
+from engine.api import check, part, nt, conc, quiet, pick
 from engine.runner import Ob
 
 PROPERTY = "C20"
@@ -20,7 +20,7 @@ ASSUMPTIONS = [
     "bound: enable/disable histories of length <= 6 (quick) / <= 10 (thorough), starting from the import-time state (disabled)",
     "claimed for the registration gate clause only; HTTP routing/serialisation by Flask/werkzeug runs untraced on concrete "
     "request bytes (one real request per explored history), every other HTTP clause of C20 is outside the claim",
-    "the registration payload is one fixed valid serialised command (pickle/marshal are C code and are not explored)",
+    "registration payloads: a valid serialised command (plain and base64 form), a pickle whose loading has an observable side effect, and B + free symbolic bytes |b|<=2; pickle/marshal internals are C code and are not explored",
 ]
 EXPLANATION = "gate state after a symbolic history == last call; refused registration => status ERROR and registry unchanged"
 
@@ -36,6 +36,27 @@ with quiet():
     _META = command_metadata_from_callable(_payload_fn, has_state_argument=False, attributes={})
     PAYLOAD = CommandRegistry.encode_registration(_payload_fn, _META)
     PAYLOAD64 = CommandRegistry.encode_registration_base64(_payload_fn, _META)
+
+
+DECODED = []
+
+
+def _mark_decoded(tag):
+    DECODED.append(tag)
+    return tag
+
+
+class _Hostile:
+    """a pickle whose loading has an observable side effect: it must never be loaded while the gate is closed"""
+
+    def __reduce__(self):
+        return (_mark_decoded, ("loaded",))
+
+
+import pickle as _pickle
+import base64 as _base64
+HOSTILE_B = b"B" + _pickle.dumps(_Hostile())
+HOSTILE_E = b"E" + _base64.urlsafe_b64encode(HOSTILE_B)
 
 
 def _apply(history):
@@ -103,9 +124,36 @@ def ob_gate_http(history: List[bool], use_get: bool) -> bool:
     return check((body or {}).get("status") == ("OK" if expected else "ERROR") and registered == expected)
 
 
+def ob_gate_payload(history: List[bool], kind: int, junk: bytes) -> bool:
+    """
+    pre: len(history) <= part("maxlen") and kind == part("kind") and len(junk) <= (2 if part("kind") == 4 else 0)
+    pre: part("kind") != 4 or len(history) == 0 or not history[-1]
+    post: _
+    """
+    expected = bool(history[-1]) if len(history) else False
+    _apply(history)
+    kind = pick(kind, 5)
+    payload = [PAYLOAD, PAYLOAD64, HOSTILE_B, HOSTILE_E, b"B" + junk][kind]
+    reg = CommandRegistry()
+    del DECODED[:]
+    with quiet():
+        r = reg.register_remote_serialized(payload)
+    lcmd._remote_registration = False
+    if expected:
+        # enabled: valid payloads register; anything else is reported as an error (how is not constrained)
+        ok = (kind > 1) or (r.get("status") == "OK" and "remote_fn_c20" in reg.as_dict().get("root", {}))
+        return check(ok, "open")
+    # closed: refused, nothing registered, and the payload is not even decoded (no unpickling side effect)
+    ok = r.get("status") == "ERROR" and reg.executables == {} and reg.metadata == {} and DECODED == []
+    return check(ok, "closed")
+
+
 def obligations(tier):
     n = 6 if tier == "quick" else 10
     return [
+    ] + [Ob("ob_gate_payload", dict(maxlen=min(n, 4), kind=k), timeout=150 if tier == "quick" else 900,
+            bounds="histories of length <= %d x payload = %s: a closed gate refuses, registers nothing and never decodes" % (
+                min(n, 4), ["valid", "valid base64", "hostile pickle (B form)", "hostile pickle (E form)", "'B' + free bytes |b|<=2 (closed-gate histories only: an open gate hands the bytes to pickle, which is C code)"][k])) for k in range(5)] + [
         Ob("ob_gate", dict(maxlen=n), timeout=120 if tier == "quick" else 900, bounds="all enable/disable histories of length <= %d" % n),
         Ob("ob_gate_http", dict(maxlen=min(n, 8)), timeout=150 if tier == "quick" else 900,
            bounds="all histories of length <= %d x {GET,POST} registration endpoint of the real Flask blueprint" % min(n, 8)),
